@@ -27,6 +27,9 @@ TRUSTED = ['Lean 4.33 kernel', 'axioms: propext, Classical.choice, Quot.sound',
            'sympy arithmetic on symbolic magnitudes is modelled as a free commutative group on the symbols',
            'scale equality in the model is equality of prime-exponent vectors']
 ASSUMPTIONS = ['floating-point rounding and the 1e-9 isclose tolerance are outside the exact model',
+               'binary64 range: generated units have SI scales within 1e+-15 (pint multiplies the scales of all named '
+               'units of a quantity one after the other; with yocto*yocto*exa^-2 style units an intermediate product '
+               'underflows and the factor becomes 0.0 — seen once in 10 000 thorough cases before the bound)',
                'rules are Python callables: the model and the theorems cover linear rules (multiplication/division by '
                'quantities with positive numeric or opaque symbolic magnitude)',
                'when two different shortest rule paths exist pint picks by set iteration order; the generator keeps '
